@@ -100,15 +100,17 @@ func (t *T) Sleep(n int)           { time.Sleep(t.U(n)) }
 // capturing logger: counts the warnings the properties speak of
 type capLogger struct{ t *T }
 
-func (l capLogger) SetLevel(string) {}
-func (l capLogger) Info(string)     {}
-func (l capLogger) Debug(string)    {}
-func (l capLogger) Error(m string)  { l.t.ev("log.error", "msg", m) }
-func (l capLogger) Warn(m string)   { l.count(m) }
+func (l capLogger) SetLevel(string)               {}
+func (l capLogger) Info(string)                   {}
+func (l capLogger) Debug(string)                  {}
+func (l capLogger) Error(m string)                { l.t.ev("log.error", "msg", m) }
+func (l capLogger) Warn(m string)                 { l.count(m) }
 func (l capLogger) Infof(string, ...interface{})  {}
 func (l capLogger) Debugf(string, ...interface{}) {}
-func (l capLogger) Errorf(f string, a ...interface{}) { l.t.ev("log.error", "msg", fmt.Sprintf(f, a...)) }
-func (l capLogger) Warnf(f string, a ...interface{})  { l.count(fmt.Sprintf(f, a...)) }
+func (l capLogger) Errorf(f string, a ...interface{}) {
+	l.t.ev("log.error", "msg", fmt.Sprintf(f, a...))
+}
+func (l capLogger) Warnf(f string, a ...interface{}) { l.count(fmt.Sprintf(f, a...)) }
 func (l capLogger) count(m string) {
 	k := "other"
 	switch {
@@ -135,6 +137,7 @@ type clientCfg struct {
 	ReadQueue, WriteQueue                   int
 	MinGzip                                 int
 	Handlers                                map[uint32][]func(*protocol.Packet)
+	TimeoutOptionFirst                      bool // pass KeepaliveTimeout before Keepalive (a legal option order)
 }
 
 func defaultCfg() clientCfg {
@@ -174,7 +177,9 @@ func (t *T) NewClient(p *Peer, cfg clientCfg) (client.Client, error) {
 		t.ev("cb.pong", "rid", p.Metadata.RequestId, "body", fmt.Sprintf("%x", p.Body))
 	})
 	opts := []client.DialOption{client.DialTimeout(t.U(cfg.DialTimeoutU)), client.AuthTimeout(t.U(cfg.AuthTimeoutU))}
-	if cfg.KeepaliveU > 0 {
+	if cfg.KeepaliveU > 0 && cfg.TimeoutOptionFirst {
+		opts = append(opts, client.KeepaliveTimeout(t.U(cfg.KeepaliveTimeoutU)), client.Keepalive(t.U(cfg.KeepaliveU)))
+	} else if cfg.KeepaliveU > 0 {
 		opts = append(opts, client.Keepalive(t.U(cfg.KeepaliveU)), client.KeepaliveTimeout(t.U(cfg.KeepaliveTimeoutU)))
 	} else {
 		opts = append(opts, client.Keepalive(time.Hour), client.KeepaliveTimeout(2*time.Hour))
@@ -197,8 +202,16 @@ func (t *T) NewClient(p *Peer, cfg clientCfg) (client.Client, error) {
 	}
 	t.cl = cl
 	t.ev("api.dial.start")
+	before := p.Dials()
 	err := cl.Dial(context.Background(), p.URL(), t.handshake(), opts...)
 	t.ev("api.dial.end", "err", fmt.Sprint(err))
+	if err == nil {
+		// a TCP dial without authentication returns as soon as the kernel completed the connection: let the scripted peer's
+		// accept loop register it before the scenario goes on (a listener closed too early would reset it)
+		for i := 0; i < 400 && p.Dials() == before; i++ {
+			time.Sleep(5 * time.Millisecond)
+		}
+	}
 	return cl, err
 }
 
@@ -235,7 +248,7 @@ func (t *T) DoAsync(cl client.Client, id string, cmd uint32, timeoutU int) {
 	t.wg.Add(1)
 	go func() { defer t.wg.Done(); t.Do(cl, id, cmd, timeoutU) }()
 }
-func (t *T) Join() { t.wg.Wait() }
+func (t *T) Join()                      { t.wg.Wait() }
 func (t *T) Result(id string) *doResult { t.mu.Lock(); defer t.mu.Unlock(); return t.dos[id] }
 
 // JoinTimeout waits for the async calls; false when they have not all returned within n units
@@ -559,5 +572,5 @@ func doTagged(t *T, cl client.Client, cmd uint32, tag int32, timeoutU int) (*pro
 
 type clientRequest = client.Request
 
-func contextBG() context.Context                       { return context.Background() }
+func contextBG() context.Context                      { return context.Background() }
 func reqTimeout(d time.Duration) client.RequestOption { return client.RequestTimeout(d) }
